@@ -3,6 +3,7 @@ CONSTANTS
   MaxTotal = 3
   MaxKeys = 1
   MaxCount = 2
+  ZeroCounts = TRUE
   NAlpha = 3
 INIT MInit
 NEXT MNext
